@@ -133,6 +133,10 @@ def gen_scripts(prop, tier, rng):
             for kind in gen.KINDS:
                 S.append(gen.valid_history(rng, kind, 25))
                 S.append(gen.valid_history(rng, kind, 20, small=True))
+        # chunk sizes beyond 2^16
+        for _ in range(max(2, n // 12)):
+            for kind in gen.KINDS:
+                S.append(gen.huge_history(rng, kind))
         if prop == "C04":
             # input_buffer_allocate / output_buffer_allocate at arbitrary history points
             for ops in S:
